@@ -210,6 +210,10 @@ fn shapes() -> Vec<(String, Box<dyn Fn(&mut Rng) -> Vec<u8>>)> {
             }
             d => v.push((format!("DF{d}"), Box::new(move |rng: &mut Rng| common::structured(rng, d)))),
         }
+        // whole-frame patterns (empty halves, empty parity, single bits) behind every DF number
+        for w in 0..8u64 {
+            v.push((format!("DF{df}:pattern{w}"), Box::new(move |rng: &mut Rng| common::patterned(rng, df, w))));
+        }
     }
     v
 }
